@@ -160,8 +160,20 @@ def api(what, L):
         return lambda arr: make_N_invariants(arr)
     if what == "P":
         return lambda arr: p_invariants_c(arr)
-    sht = SHT(L)
-    return lambda arr: sht.power_spectrum(arr)
+    # the spectrum of a coefficient vector is a function of the vector: the transform object asked for it may have been made for
+    # another band limit (vectors from another transform size, low-pass slices); the objects take turns
+    shts = [SHT(L), SHT(L + 2), SHT(max(L - 1, 0)), SHT(L)]
+    turn = [0]
+
+    def power(arr):
+        turn[0] += 1
+        sht = shts[(turn[0] - 1) % len(shts)]
+        # (the compact m >= 0 layout of a real function is recognised by its length relative to the object's own band limit:
+        # only full-layout vectors can be handed to an object of another size)
+        if L == 0 or arr.size != (L + 1) ** 2 or arr.size == sht.nplm():
+            sht = shts[0]
+        return sht.power_spectrum(arr)
+    return power
 
 
 def drive(recipe):
